@@ -28,6 +28,7 @@ func checkC11(p *Prog, r *Report) {
 	c03PoolKey(p, r, "C11.R6")
 	// "gaps in weather data fail only that line": the gap test of the date-keyed readers must see gaps at a year end too (shared with C04.R2c, without its coverage clause, which is the known roll-over finding)
 	c04Carried(p, r, "C11.R7", false)
+	c11SlidingWindow(p, r)
 	// an unreadable per-run file is an error of that run only if the open helper hands the error back
 	sessionOpenRule(p, r, "C11.R8")
 }
@@ -880,4 +881,87 @@ func dayLoopTable(p *Prog, fi *FuncInfo, t *ast.ForStmt) (loopClass, bool) {
 		return loopClass{false, "table", "day loop: the day variable is not advanced by the time step"}, true
 	}
 	return loopClass{true, "table", "hand-proved: " + provedLoops["hermes.HermesSession.Run:day"] + " (writers of the end day re-validated)"}, true
+}
+
+// ---------------------------------------------------------------- the sliding temperature window stays inside the year
+
+// c11SlidingWindow: the automatic-sowing search averages the air temperature of the W preceding days, read from the
+// current year's arrays at index (day index − i), i = 1..W.  Early in the year that index is negative unless the read
+// is guarded by "day of the year > W" (day index ≥ W): an unguarded read panics in the run's goroutine and takes the
+// whole batch with it — no result, no error attributed to the line.  The search is active on every day after the
+// rotation's last harvest, so the first days of a following January are reached by any run that outlasts its
+// rotation by a year.
+func c11SlidingWindow(p *Prog, r *Report) {
+	r.Rule("C11.R9", "the sliding temperature window of the automatic-sowing search reads only days of the current year: every read at (day index − i), i running up to the window length, is guarded by day-of-the-year > window length (or day index ≥ window length)", 1)
+	fi := p.Funcs["hermes.HermesSession.Run"]
+	if fi == nil {
+		r.Ob("sliding-window:guard", "-", false, "run routine not found")
+		return
+	}
+	info := fi.Pkg.TypesInfo
+	mentionsField := func(n ast.Node, name string) bool {
+		f := false
+		ast.Inspect(n, func(m ast.Node) bool {
+			if se, ok := m.(*ast.SelectorExpr); ok && se.Sel.Name == name {
+				f = true
+			}
+			if id, ok := m.(*ast.Ident); ok {
+				// a local assigned once from an expression that mentions the field
+				if o := info.Uses[id]; o != nil {
+					for _, d := range defsOf(info, fi.Decl.Body, o) {
+						ast.Inspect(d.Rhs, func(q ast.Node) bool {
+							if se, ok := q.(*ast.SelectorExpr); ok && se.Sel.Name == name {
+								f = true
+							}
+							return true
+						})
+					}
+				}
+			}
+			return true
+		})
+		return f
+	}
+	n := 0
+	ast.Inspect(fi.Decl.Body, func(m ast.Node) bool {
+		loop, ok := m.(*ast.ForStmt)
+		if !ok || loop.Cond == nil || !mentionsField(loop.Cond, "TSLWINDOW") {
+			return true
+		}
+		// reads at TAG.Index − <loop variable>
+		ast.Inspect(loop.Body, func(q ast.Node) bool {
+			ix, ok := q.(*ast.IndexExpr)
+			if !ok {
+				return true
+			}
+			be, ok := ast.Unparen(ix.Index).(*ast.BinaryExpr)
+			if !ok || be.Op != token.SUB || !strings.HasSuffix(types.ExprString(be.X), "TAG.Index") {
+				return true
+			}
+			n++
+			conds, _ := astPathConds(info, fi.Decl.Body, ix)
+			good := false
+			for _, c := range conds {
+				cb, ok := c.E.(*ast.BinaryExpr)
+				if !ok || c.Neg {
+					continue
+				}
+				l := types.ExprString(ast.Unparen(cb.X))
+				switch {
+				case strings.HasSuffix(l, "TAG.Num") && cb.Op == token.GTR && mentionsField(cb.Y, "TSLWINDOW"):
+					good = true
+				case strings.HasSuffix(l, "TAG.Index") && cb.Op == token.GEQ && mentionsField(cb.Y, "TSLWINDOW"):
+					good = true
+				case strings.HasSuffix(l, "TAG.Index + 1") && cb.Op == token.GTR && mentionsField(cb.Y, "TSLWINDOW"):
+					good = true
+				}
+			}
+			r.Ob("sliding-window:guard", p.Pos(ix.Pos()), good, fmt.Sprintf("the read %s is guarded by day of the year > window length: %v (conditions: %s)", types.ExprString(ix), good, clip(joinConds(conds), 160)))
+			return true
+		})
+		return true
+	})
+	if n == 0 {
+		r.Ob("sliding-window:guard", "-", false, "the sliding temperature window of the automatic-sowing search was not found")
+	}
 }
